@@ -51,7 +51,10 @@ class LindbladForm(RedfieldRelaxationTensor):
         if sbi is None:
             KK = numpy.zeros((1, Na, Na), dtype=REAL)
         else:
-            KK = sbi.KK
+            # the form must own its operators: they are transformed in place
+            # when the basis changes, and `sbi` (or another form built from 
+            # the same `sbi`) must not be transformed along
+            KK = numpy.array(sbi.KK)
             
         self._post_implementation(KK, llm, lld)
 
